@@ -97,8 +97,8 @@ PROPS["C08"]["rules"] += [
 ]
 PROPS["C08"]["explanation"] = ("Three clauses on the no-panic cone (local call graph from build/set_params/residuals/jacobian/fit/fit_with_statistics/statistics accessors/"
     "SeparableModel's trait impl and the wrapped user callables): (1) every SVD constructor call receives a matrix checked all-finite after its last arithmetic (qualifier dataflow over presence conditions); "
-    "(2) every explicit panic call, unwrap/expect, checked Sub/Neg/Shl/Shr/Div/Rem, bounds check and Index call is dominated by a guard establishing its condition or is an entry of the reviewed table (multiplicity-limited, one reason each); "
-    "(3) every natural loop is a for-loop over a finite std/nalgebra iterator and there is no recursion on the cone; model errors are never unwrapped (shared with C09).")
+    "(2) every explicit panic call, unwrap/expect, checked Sub/Neg/Shl/Shr/Div/Rem, bounds check and Index call is dominated by a guard establishing its condition (also a guard inside a helper that only returns when it holds), discharged in every calling context by an in-bounds / refuted-assert proof over canonical indices (discharge.py: extents, dominating asserts along the call chain, the square-covariance invariant), or is an entry of the reviewed table (multiplicity-limited, one reason each, addressed by function, by stable ancestors of a private helper, or by structural role); "
+    "(3) every natural loop is a for-loop over a finite std/nalgebra iterator, every iterator pipeline driven to completion has a finite source, and there is no recursion on the cone; model errors are never unwrapped (shared with C09).")
 PROPS["C08"]["not_decided"] = ["panics inside nalgebra on dimension mismatch (excluded by the shape rules given a model honouring the shape contract)",
     "termination of levenberg-marquardt and of nalgebra's SVD on finite input", "behaviour on subnormals/extremes"]
 
@@ -215,7 +215,7 @@ PROPS["C10"] = {
         ("R-JAC-ABSENT", rules_err.rule_jac_absent, {}),
     ],
     "explanation": "Cache written only as a whole value on every path through set_params, built from terms of the same invocation with no read of the previous cache; no interior mutability in state types; "
-                   "each uninitialised result matrix (exactly the reviewed unsafe sites) is proven fully overwritten column by column before any success return.",
+                   "each uninitialised result matrix (exactly the reviewed unsafe sites, or private helpers reached only from them) is proven fully overwritten before any success return: a full-column write col(A,k) with k the counter of an iteration whose extent covers ncols(A), executed on every non-failing path of every iteration (through helpers), a lazily mapped closure driven to completion, success only after exhaustion — decided on canonical column writes (tab.py) of the merged body (inline.py).",
     "not_decided": ["value equality with a freshly built problem (follows from the decided clauses plus purity of the model - trait contract)"],
 }
 PROPS["C11"] = {
@@ -261,7 +261,7 @@ PROPS["C15"] = {
         ("R-FN-RESULT-STICKY", rmb.rule_fn_result_sticky, {}),
         ("R-BUILD-GUARDS", rmb.rule_build_guards, {}),
     ],
-    "explanation": "Typestate transition table of SeparableModelBuilder extracted per match arm (path-pruned term evaluation, self-delegation resolved through the From impls) equals the reviewed table: errors are sticky with payload unchanged, "
+    "explanation": "Typestate transition table of SeparableModelBuilder, obtained by evaluating every public method once per state with `self` a symbolic aggregate of that state (helpers, closures and self-delegation inlined, matches on known variants partially evaluated), equals the reviewed table: errors are sticky with payload unchanged, "
                    "derivatives attach only directly after a function, every other call first finalises the pending function; the function builder's recorded result is only ever overwritten with Err; "
                    "each ModelBuildError is constructed only under its defining predicate and the model is built only after all validations passed.",
     "not_decided": ["the full iff over all call sequences (language membership over run-time data)", "which of several simultaneous defects is reported"],
@@ -291,7 +291,7 @@ PROPS["C16"] = {
         ("R-DECLARED-ORDER", rm.rule_declared_order, {}),
     ],
     "explanation": "Index typing of the routing: in each of the 10 arity dispatch impls argument slot i receives clone(params[i]) with ARGUMENT_COUNT = N under the length guard; the index mapping is the position of the f-th function parameter in the model list in declaration order and the wrapper pushes params[mapping[f]] in that order (same wrapper for functions and derivatives); "
-                   "the derivative map key is the enumerate index over the model parameter list (not taken after a filter) and eval_partial_deriv looks up the requested index in a zero-initialised matrix; eval zips the function list with the columns in insertion order and the list is only ever pushed to; set_params stores the vector unchanged.",
+                   "the derivative map key is the enumerate index over the model parameter list (not taken after a filter) and eval_partial_deriv looks up the requested index in a zero-initialised matrix; column j of eval / eval_partial_deriv is written from the j-th function (resp. its derivative stored under the requested index) evaluated on x and the current parameters (canonical column writes: zip, index loop, try_for_each and shared helpers coincide) and the list is only ever pushed to; set_params stores the vector unchanged; the function builder stores exactly the two name lists the function was wrapped with, wraps every derivative with them and never reorders them (R-DECLARED-ORDER).",
     "not_decided": ["that user-supplied derivative callables are the derivatives"],
 }
 PROPS["C17"] = {
